@@ -94,17 +94,28 @@ def verify(mod, tier, seed, only_fn=None):
     # vacuity guard: `False` must NOT be provable from the path condition of at least one path reaching each cover
     cov_labels = []
     ok_labels = set()
+    pending = []
     for sp, lab, pcs in run_specs.last_covers:
         key = (sp.qualname + (":" + sp.tag if getattr(sp, "tag", None) else ""), lab)
         cov_labels.append(key)
-        # infeasible paths may reach a label first (cheap feasibility pruning is incomplete): look for one consistent
-        # path condition, in batches
-        for i in range(0, len(pcs), 8):
-            batch = [engine.Obligation(f"cover[{lab}]", "cover", pc, z3.BoolVal(False), lab, sp.qualname) for pc in pcs[i:i + 8]]
-            cres = solve.discharge(batch, timeout_ms=1200, seed=seed, fallback=False)
-            if any(r["verdict"] != "unsat" for r in cres):
+        pending.append((key, sp, lab, pcs))
+    # infeasible paths may reach a label first (cheap feasibility pruning is incomplete): look for one consistent
+    # path condition per label, a few candidates per round, all labels of a round in one solver batch
+    rnd = 0
+    while pending and rnd < 12:
+        batch, owners = [], []
+        for key, sp, lab, pcs in pending:
+            for pc in pcs[rnd * 4:(rnd + 1) * 4]:
+                batch.append(engine.Obligation(f"cover[{lab}]", "cover", pc, z3.BoolVal(False), lab, sp.qualname))
+                owners.append(key)
+        if not batch:
+            break
+        cres = solve.discharge(batch, timeout_ms=1000, seed=seed, fallback=False)
+        for key, r in zip(owners, cres):
+            if r["verdict"] != "unsat":
                 ok_labels.add(key)
-                break
+        pending = [p for p in pending if p[0] not in ok_labels and len(p[3]) > (rnd + 1) * 4]
+        rnd += 1
     cov_idx = cov_labels
     for k in sorted(set(cov_idx)):
         if k not in ok_labels:
